@@ -2,12 +2,19 @@
    Proved: conditioning on x gives mean Mx+b and covariance AA' + A_k diag(link) A_k'; the code's precision and
    log-determinant (rank-Dk Woodbury shortcut) are the inverse and log-determinant of that covariance when A is
    square (Da = Dy); for Da > Dy they are NOT (refutation witness; known finding); the repaired variant (direct
-   inversion) is right for every shape.  NOT decided by proof: that integrate_log_conditional_y is a lower bound of
-   E[ln p(y|x)] (equal for the step link) and that the gap vanishes quadratically -- variational inequalities and
-   expectations of non-polynomial integrands, outside the exact model; checked against quadrature only. *)
+   inversion) is right for every shape.  The lower bounds (exp and cosh-1 links; model/HetBound.v, proofs/C17_bound.v): the factors the code builds
+   evaluate, at every x and for every value of the variational parameters, to the exponents
+     h/2 - (ln cosh(w/2) + ln 2) - 1/2 g1 (h^2 - w^2)   resp.   - ln cosh w - 1/2 g1 (h^2 - w^2),   h = w'x + w0,
+   whose exponentials are proved over the reals (trunc/C17R.v) to lie below link/(1+link) resp. 1/cosh for ALL h and
+   w > 0; k_func is the Gaussian expectation of the matching upper bound of ln(1 + link(h)) (a quadratic polynomial in
+   h), tight at the code's choice w^2 = E[h^2]; the assembled value is -1/2 (E[(y-Mx-b)'Lambda(y-Mx-b)] - sum_i het_i
+   + sum_i k_i) - 1/2 ln det Sigma - Dy/2 ln 2pi.  NOT decided by proof: monotonicity of the multivariate Gaussian
+   integral (it lifts the pointwise inequalities to the expectations; no multivariate integration library), the
+   rectified-linear / step closed forms in D > 1 (they go through C05 and the one-dimensional truncated integrals of
+   C20: trunc/C16R.v), and the quadratic rate of the gap. *)
 From Coq Require Import QArith Qcanon ZArith.
 From mathcomp Require Import all_ssreflect all_algebra.
-From GT Require Import QcField QcOrder Tensor DetExec LogDom Obj Factor Measure Pdf Cond Moments Approx EvalLemmas Spec C01_proofs PdfLemmas C04_proofs C1617_proofs.
+From GT Require Import QcField QcOrder Tensor DetExec LogDom Obj Factor Measure Pdf Cond Moments Approx EvalLemmas Spec C01_proofs PdfLemmas C04_proofs C1617_proofs HetBound C14_proofs C17_bound.
 Local Close Scope Q_scope. Local Close Scope Qc_scope. Local Close Scope Z_scope.
 Import GRing.Theory Num.Theory.
 Local Open Scope ring_scope.
@@ -34,6 +41,61 @@ Theorem C17_precision_repaired Dy Da Dk (A : mat F) (Dv : vec F) :
   mxf Dy Dy (het_Sigma Dy Da Dk A Dv) *m mxf Dy Dy (het_Lambda_true Dy Da Dk A Dv) = 1%:M
   /\ het_hS_true LS Dy Da Dk A Dv = hln LS (\det (mxf Dy Dy (het_Sigma Dy Da Dk A Dv))).
 Proof. exact: het_precision_repaired. Qed.
+
+(* ---- the variational lower bound, exp and cosh-1 links (h = w'x + b0) ---- *)
+Theorem C17_exp_bound_factor N Dx (w : vec F) (b0 : F) (om lc th : vec F) n (x : vec F) : (n < N)%N ->
+  let h := dot Dx w x + b0 in
+  feval (hb_exp_factor LS N Dx w b0 om lc th) n x
+  = emb LS (half F * h - lc n - half F * hb_exp_g1 om th n * (h * h - om n * om n)) - ln2 LS.
+Proof. exact: hb_exp_factor_eval. Qed.
+Theorem C17_coshm1_bound_factor N Dx (w : vec F) (b0 : F) (om lc th : vec F) n (x : vec F) : (n < N)%N ->
+  let h := dot Dx w x + b0 in
+  feval (hb_cosh_factor LS N Dx w b0 om lc th) n x
+  = emb LS (- lc n - half F * hb_cosh_g1 om th n * (h * h - om n * om n)).
+Proof. exact: hb_cosh_factor_eval. Qed.
+(* the measures whose polynomial integrals the code takes: p(x) times the bound factor (times exp(+-h)/2), pointwise *)
+Theorem C17_exp_bound_measure (p : measure LS) N Dx (w : vec F) (b0 : F) (om lc th : vec F) k (x : vec F) :
+  uD p = Dx -> (k < maxn (uR p) N)%N -> (bidx N k < N)%N ->
+  let h := dot Dx w x + b0 in let n := bidx N k in
+  ueval (hadamard true p (hb_exp_factor LS N Dx w b0 om lc th)) k x
+  = ueval p (bidx (uR p) k) x
+    + (emb LS (half F * h - lc n - half F * hb_exp_g1 om th n * (h * h - om n * om n)) - ln2 LS).
+Proof. exact: hb_exp_measure_eval. Qed.
+Theorem C17_coshm1_bound_measures (p : measure LS) N Dx (w : vec F) (b0 : F) (om lc th : vec F) k (x : vec F) :
+  uD p = Dx -> (k < maxn (uR p) N)%N -> (bidx N k < N)%N ->
+  let h := dot Dx w x + b0 in let n := bidx N k in
+  let lbm := hadamard true p (hb_cosh_factor LS N Dx w b0 om lc th) in
+  let e := - lc n - half F * hb_cosh_g1 om th n * (h * h - om n * om n) in
+  [/\ ueval lbm k x = ueval p (bidx (uR p) k) x + emb LS e,
+      ueval (hadamard true lbm (hb_h_plus LS Dx w b0)) k x = ueval p (bidx (uR p) k) x + (emb LS (e + h) - ln2 LS)
+    & ueval (hadamard true lbm (hb_h_minus LS Dx w b0)) k x = ueval p (bidx (uR p) k) x + (emb LS (e - h) - ln2 LS)].
+Proof.
+by move=> HD Hk Hn h n lbm e; split; [exact: hb_cosh_measure_eval | exact: hb_cosh_plus_eval | exact: hb_cosh_minus_eval].
+Qed.
+(* k_func: expectation of the upper bound of ln(1 + link(h)) for h ~ N(m, s2), tight at w^2 = E[h^2] *)
+Theorem C17_exp_logdet_term (p : measure LS) Dx (w : vec F) (b0 : F) (om lc th : vec F) r :
+  pdf_ok p -> (r < uR p)%N -> uD p = Dx ->
+  let m := dot Dx w (getmu p r) + b0 in let s2 := quad Dx (getS p r) w in
+  hb_exp_kq p w b0 om lc th r = half F * m + lc r + half F * hb_exp_g1 om th r * (s2 + m * m - om r * om r)
+  /\ (om r * om r = s2 + m * m -> hb_exp_kq p w b0 om lc th r = half F * m + lc r).
+Proof. by move=> Hp Hr HD m s2; split; [exact: hb_exp_kq_spec | exact: hb_exp_kq_at_dagger]. Qed.
+Theorem C17_coshm1_logdet_term (p : measure LS) Dx (w : vec F) (b0 : F) (om lc th : vec F) r :
+  pdf_ok p -> (r < uR p)%N -> uD p = Dx ->
+  let m := dot Dx w (getmu p r) + b0 in let s2 := quad Dx (getS p r) w in
+  hb_cosh_kq p w b0 om lc th r = lc r + half F * hb_cosh_g1 om th r * (s2 + m * m - om r * om r)
+  /\ (om r * om r = s2 + m * m -> hb_cosh_kq p w b0 om lc th r = lc r).
+Proof. by move=> Hp Hr HD m s2; split; [exact: hb_cosh_kq_spec | exact: hb_cosh_kq_at_dagger]. Qed.
+(* the assembled value *)
+Theorem C17_bound_assembly Dy Da Dk Dx (A M : mat F) (b : vec F) (p : measure LS) (ys : seq (vec F))
+    (het kq : nat -> vec F) (nln2 : nat) n :
+  pdf_ok p -> uD p = Dx -> (bidx (uR p) n < uR p)%N ->
+  let rp := bidx (uR p) n in
+  hb_final Dy Da Dk Dx A M b p ys het kq nln2 n
+  = emb LS (- half F * (Equad (cvf Dx (getmu p rp)) (mxf Dx Dx (getS p rp)) (- mxf Dy Dx M)
+                              (cvf Dy (nth vzero ys n) - cvf Dy b) (mxf Dy Dy (hb_Lam Dy Da A))
+                        - sumn Dk (fun i => het i n) + sumn Dk (fun i => kq i rp)))
+    - het_hS0 LS Dy Da A - hln LS 2%:R *+ nln2 - hl2p LS *+ Dy.
+Proof. exact: hb_final_spec. Qed.
 End C17.
 
 (* Da > Dy: Dy = 1, Da = 2, Dk = 1, A = [1 1], link value 1: Sigma = 3, the code's Lambda = 3/8 *)
@@ -45,3 +107,10 @@ Print Assumptions C17_conditional_mean_covariance.
 Print Assumptions C17_precision_partial.
 Print Assumptions C17_precision_repaired.
 Print Assumptions C17_precision_refuted.
+Print Assumptions C17_exp_bound_factor.
+Print Assumptions C17_coshm1_bound_factor.
+Print Assumptions C17_exp_bound_measure.
+Print Assumptions C17_coshm1_bound_measures.
+Print Assumptions C17_exp_logdet_term.
+Print Assumptions C17_coshm1_logdet_term.
+Print Assumptions C17_bound_assembly.
